@@ -1403,8 +1403,7 @@ class Vector():
 			# (an untyped empty vector and a Table have no dtype: nothing to compare)
 			if self._dtype is not None and other.schema() is not None and not self._dtype.nullable and not other.schema().nullable and self._dtype.kind != other.schema().kind:
 				raise SerifTypeError("Cannot concatenate two typesafe Vectors of different types")
-			return Vector((self,) + other.cols(),
-				dtype=self._dtype)
+			return Vector((self,) + other.cols())
 		if isinstance(other, Vector):
 			# (an untyped empty vector and a Table have no dtype: nothing to compare)
 			if self._dtype is not None and other.schema() is not None and not self._dtype.nullable and not other.schema().nullable and self._dtype.kind != other.schema().kind:
@@ -1414,9 +1413,9 @@ class Vector():
 			return Vector((self,) + (other,))
 		if isinstance(other, Iterable) and not isinstance(other, (str, bytes, bytearray)):
 			return Vector([self, Vector(tuple(x for x in other))])
-		elif not self:
-			return Vector((other,),
-				dtype=self._dtype)
+		elif len(self) == 0:
+			# (the truth value of a Vector raises: test the length)
+			return Vector((other,))
 		raise SerifTypeError("Cannot add a column of constant values. Try using Vector.new(element, length).")
 
 	def __rlshift__(self, other):
